@@ -56,6 +56,9 @@ func asSet(v V, what string) (V, error) {
 	if v.K == KSeqSet {
 		return V{}, unknown("%s: Seq(S) is not enumerable", what)
 	}
+	if v.K == KFn && (len(v.D) == 0 || what == "IsFiniteSet") {
+		return V{}, unknown("%s: TLC quietly accepts %s as a set", what, v)
+	}
 	if v.K != KSet {
 		return V{}, errf("type", "%s: expected a set, got %s", what, v)
 	}
@@ -85,31 +88,39 @@ func ranged(i int64, what string) (V, error) {
 
 func checkedSet(elems []V, what string) (V, error) {
 	s := MkSet(elems)
-	if !WellFormed(s) {
+	switch Normalisable(s.E) {
+	case CmpNo:
 		return V{}, errf("compare", "%s: elements are not comparable: %s", what, s)
+	case CmpMurky:
+		return V{}, unknown("%s: elements of %s may be incomparable for TLC", what, s)
 	}
 	return s, nil
 }
 
-func crossCompat(a, b V) bool {
+func crossComparable(a, b V) int {
+	st := CmpYes
 	for _, x := range a.E {
 		for _, y := range b.E {
-			if !Compat(x, y) {
-				return false
+			switch Comparable(x, y) {
+			case CmpNo:
+				return CmpNo
+			case CmpMurky:
+				st = CmpMurky
 			}
 		}
 	}
-	return true
+	return st
 }
 
 // Member is x \in s with TLC's error behaviour.
 func Member(x, s V) (bool, error) {
 	switch s.K {
 	case KSet:
-		for _, e := range s.E {
-			if !Compat(x, e) {
-				return false, errf("compare", "%s \\in %s compares incomparable values", x, s)
-			}
+		switch crossComparable(V{K: KSet, E: []V{x}}, s) {
+		case CmpNo:
+			return false, errf("compare", "%s \\in %s compares incomparable values", x, s)
+		case CmpMurky:
+			return false, unknown("%s \\in %s may compare incomparable values", x, s)
 		}
 		return s.Has(x), nil
 	case KSeqSet:
@@ -419,9 +430,15 @@ func (ev *Evaluator) ApplyNode(e *Expr, a NodeArgs, env []V) (V, error) {
 		}
 		return Bool(ok == (e.Op == "ModuleInSymbol")), nil
 	case "ModuleIntersectSymbol", "ModuleUnionSymbol", "ModuleBackslashSymbol", "ModuleSubsetOrEqualSymbol":
+		if e.Op == "ModuleUnionSymbol" && arg(0).K != KSet && arg(1).K == KSet && len(arg(1).E) == 0 {
+			return V{}, unknown("x \\cup {}: TLC returns x without looking at it")
+		}
 		l, err := asSet(arg(0), e.Op)
 		if err != nil {
 			return V{}, err
+		}
+		if len(l.E) == 0 && arg(1).K != KSet {
+			return V{}, unknown("%s: TLC may never look at the right operand when the left one is empty", e.Op)
 		}
 		r, err := asSet(arg(1), e.Op)
 		if err != nil {
@@ -430,8 +447,11 @@ func (ev *Evaluator) ApplyNode(e *Expr, a NodeArgs, env []V) (V, error) {
 		if err := ev.tick(len(l.E) + len(r.E)); err != nil {
 			return V{}, err
 		}
-		if len(l.E) > 0 && len(r.E) > 0 && !crossCompat(l, r) {
+		switch crossComparable(l, r) {
+		case CmpNo:
 			return V{}, errf("compare", "%s of sets with incomparable elements: %s, %s", e.Op, l, r)
+		case CmpMurky:
+			return V{}, unknown("%s of sets with possibly incomparable elements: %s, %s", e.Op, l, r)
 		}
 		var out []V
 		switch e.Op {
@@ -603,8 +623,11 @@ func (ev *Evaluator) ApplyNode(e *Expr, a NodeArgs, env []V) (V, error) {
 		}
 		// left operand wins
 		f := MkFn(append(append([]V(nil), r.D...), l.D...), append(append([]V(nil), r.R...), l.R...))
-		if !WellFormed(V{K: KSet, E: f.D}) {
+		switch Normalisable(f.D) {
+		case CmpNo:
 			return V{}, errf("compare", "@@: incomparable domain elements in %s", f)
+		case CmpMurky:
+			return V{}, unknown("@@: possibly incomparable domain elements in %s", f)
 		}
 		return f, nil
 	case "ModuleDomainSymbol":
@@ -824,6 +847,9 @@ func (ev *Evaluator) except(src V, keys []V, val *Expr, env []V) (V, error) {
 	f, err := asFn(src, "EXCEPT")
 	if err != nil {
 		return V{}, err
+	}
+	if f.IsSeq() && keys[0].K != KInt {
+		return V{}, unknown("EXCEPT with non-integer key %s on the sequence %s", keys[0], f)
 	}
 	for _, d := range f.D {
 		if !Compat(d, keys[0]) {
